@@ -26,10 +26,25 @@ def unchanged(t, snap):
     return snapshot(t) == snap
 
 
-def shares_nodes(a, b):
+def shares_nodes(a, b, placeholders_ok=True):
+    """does `b` contain a node object of `a`?  `clone_item` legitimately fills the children of a clone with the
+    NONE_ITEM singleton; a complete copy (default transformer) must not even share that one (seeded C08-F)"""
     T = common.impl().tree
-    ia = {id(n) for n in all_nodes(a) if n is not T.NONE_ITEM}
-    return any(id(n) in ia for n in all_nodes(b) if n is not T.NONE_ITEM)
+    ia = {id(n) for n in all_nodes(a) if not (placeholders_ok and n is T.NONE_ITEM)}
+    return any(id(n) in ia for n in all_nodes(b) if not (placeholders_ok and n is T.NONE_ITEM))
+
+
+def use_placeholder_singleton(t, rng, p=0.5):
+    """replace (in place, before any snapshot) NoneItem leaves without layout by the NONE_ITEM singleton itself:
+    half-built trees carry that very object"""
+    T = common.impl().tree
+    for n in list(all_nodes(t)):
+        ch = list(n.children)
+        new = [T.NONE_ITEM if (type(c) is T.NoneItem and not c.head and not c.tail and c.pos is None
+                               and c.size is None and rng.random() < p) else c for c in ch]
+        if any(x is not y for x, y in zip(ch, new)):
+            n.children = new
+    return t
 
 
 def parsed_tree(ctx, rng, **kw):
